@@ -456,3 +456,124 @@ def provider_threading(tier="quick", root=None):
 def provider(tier="quick", root=None):
     return (provider_full_simplify(tier, root) + provider_fuse_squeeze(tier, root) + provider_tn_squeeze(tier, root)
             + provider_threading(tier, root))
+
+
+# ------------------------------------------------------------------------------------------------ tensor_multifuse
+def _coded_tensor(qtn, inds, dims, np):
+    shape = tuple(dims[ix] for ix in inds)
+    n = int(np.prod(shape)) if shape else 1
+    return qtn.Tensor(np.arange(n, dtype=np.int64).reshape(shape), inds=inds), shape
+
+
+def _decode(t, bond, inds0, shape0, np):
+    """position p on the fused leg `bond` of the REAL fused tensor -> {old index name: old position}: the data of the
+    tensor are the ravelled codes of its original multi-index, so the real Tensor.fuse order is READ, not assumed"""
+    ax = t.inds.index(bond)
+    data = np.moveaxis(np.asarray(t.data), ax, 0)
+    vec = data.reshape(data.shape[0], -1)[:, 0]
+    out = []
+    for code in vec:
+        mi = np.unravel_index(int(code), shape0) if shape0 else ()
+        out.append(dict(zip(inds0, (int(x) for x in mi))))
+    return out
+
+
+def _multifuse_domain():
+    for nb in (2, 3):
+        names = ("a", "b", "c")[:nb]
+        for ds in itertools.product((1, 2, 3), repeat=nb):
+            for present in itertools.product((True, False), repeat=nb):
+                for order in (names, names[::-1]):
+                    for bond_ind in (None, "new"):
+                        yield names, dict(zip(names, ds)), dict(zip(names, present)), order, bond_ind
+
+
+def provider_multifuse(tier="quick", root=None):
+    """tensor_multifuse / tensor_make_single_bond on real tiny Tensors whose entries encode their own multi-index and
+    gauge vectors of sympy symbols (object arrays): for every bond count 2..3, dims in {1,2,3}, subset of bonds carrying a
+    gauge, order of `inds`, bond_ind None | new name.  Denotation: sum_p t1[.., p] g[p] t2[.., p] is the old gauged
+    contraction iff g[p] == prod_k g_k[i_k(p)] where i_k(p) is what the REAL fuse put at position p of BOTH tensors."""
+    import numpy as np
+    import sympy
+    import quimb.tensor as qtn
+    fn = "tensor_multifuse"
+    f = _real(root, _TC, fn)
+    fmsb = _real(root, _TC, "tensor_make_single_bond", tensor_multifuse=f)
+    bad = {k: [] for k in ("fused-gauge-aligned-with-fused-legs", "gauges-old-removed-new-added",
+                           "gauges-others-untouched", "legs-fused-consistently")}
+    bad2 = {k: [] for k in ("fused-gauge-aligned-with-fused-legs", "gauges-old-removed-new-added", "bond-choice")}
+    t0 = time.time()
+    for names, dims, present, order, bond_ind in _multifuse_domain():
+        for via in ("multifuse", "single_bond"):
+            B = bad if via == "multifuse" else bad2
+            cfg = dict(dims=dims, gauged={k for k, v in present.items() if v}, inds=order, bond_ind=bond_ind, via=via)
+            d = dict(dims, l=2, r=2)
+            # the shared legs sit at different positions / in different orders on the two tensors
+            i1 = ("l",) + tuple(names)
+            i2 = tuple(names[::-1][:1]) + ("r",) + tuple(names[::-1][1:])
+            t1, s1 = _coded_tensor(qtn, i1, d, np)
+            t2, s2 = _coded_tensor(qtn, i2, d, np)
+            gsym = {k: np.array([sympy.Symbol(f"g{k}{i}") for i in range(dims[k])], dtype=object)
+                    for k in names if present[k]}
+            other = np.array([sympy.Symbol("z0"), sympy.Symbol("z1")], dtype=object)
+            gauges = dict(gsym, zz=other)
+            try:
+                if via == "multifuse":
+                    f((t1, t2), order, gauges=gauges, bond_ind=bond_ind)
+                    nb = bond_ind if bond_ind is not None else order[0]
+                else:
+                    if order != names:
+                        continue
+                    left, nb, right = fmsb(t1, t2, gauges=gauges, bond_ind=bond_ind)
+                    shared = [ix for ix in i1 if ix in i2]
+                    if not (nb == (bond_ind or shared[0]) and list(left) == ["l"] and list(right) == ["r"]):
+                        B["bond-choice"].append(dict(cfg, got=repr((left, nb, right))))
+                        continue
+            except Exception as e:  # noqa
+                B["gauges-old-removed-new-added"].append(dict(cfg, raised=repr(e)))
+                continue
+            anyg = any(present.values())
+            want_keys = ({"zz"} | ({nb} if anyg else set()))
+            if set(gauges) != want_keys:
+                B["gauges-old-removed-new-added"].append(dict(cfg, keys=sorted(gauges), want=sorted(want_keys)))
+                continue
+            if via == "multifuse" and gauges["zz"] is not other:
+                B["gauges-others-untouched"].append(dict(cfg))
+            ok_legs = (nb in t1.inds and nb in t2.inds and not (set(names) - {nb}) & (set(t1.inds) | set(t2.inds)))
+            if ok_legs:
+                m1, m2 = _decode(t1, nb, i1, s1, np), _decode(t2, nb, i2, s2, np)
+                ok_legs = ([{k: m[k] for k in names} for m in m1] == [{k: m[k] for k in names} for m in m2]
+                           and len(m1) == int(np.prod([dims[k] for k in names])))
+            if not ok_legs:
+                (B.get("legs-fused-consistently") if via == "multifuse" else B["bond-choice"]).append(
+                    dict(cfg, t1=t1.inds, t2=t2.inds))
+                continue
+            if anyg:
+                g = np.asarray(gauges[nb], dtype=object).reshape(-1)
+                if len(g) != len(m1):
+                    B["fused-gauge-aligned-with-fused-legs"].append(dict(cfg, got_len=len(g), want_len=len(m1)))
+                    continue
+                for p, m in enumerate(m1):
+                    want = sympy.Integer(1)
+                    for k in names:
+                        if present[k]:
+                            want = want * gsym[k][m[k]]
+                    if sympy.expand(sympy.sympify(g[p]) - want) != 0:
+                        B["fused-gauge-aligned-with-fused-legs"].append(
+                            dict(cfg, fused_position=p, holds_old_positions={k: m[k] for k in names},
+                                 gauge_entry=str(g[p]), expected=str(want)))
+                        break
+    out = []
+    for name, B in ((fn, bad), ("tensor_make_single_bond", bad2)):
+        for lab, b in B.items():
+            e2 = lab.startswith("fused-gauge")
+            out.append(_ob(name, lab, "e2" if e2 else "fdx", b, t0, "sympy" if e2 else "exhaustive"))
+            t0 = time.time()
+    return out
+
+
+_provider_base = provider
+
+
+def provider(tier="quick", root=None):  # noqa: F811
+    return _provider_base(tier, root) + provider_multifuse(tier, root)
